@@ -1,6 +1,135 @@
-/-! Driver entry for property C04 (stub: not implemented yet). -/
-namespace HeartwoodModel.Driver.C04
+import HeartwoodModel.Model.Identity
+import HeartwoodModel.Driver.Util
+import HeartwoodModel.Driver.C08
+/-!
+Driver entry for C04 (reuses the generic wire helpers of `Driver/C08.lean`).
 
-def run (_args : List String) : String := "unimplemented"
+Case: `id <repoDoc> <docs> <sigs> <vtable> <order> <op0> <op1> …`
+* `repoDoc` = index of the document the repository is named after;
+* `docs`    = `;`-separated delegate lists (`,`-separated keys); a document's blob id is its index;
+* `sigs`    = `;`-separated `signer.doc|x` (how the harness builds signature token `i`; unused here);
+* `vtable`  = `,`-separated `key.sig.blob` triples on which the REAL Ed25519 verification succeeds (`-` = none);
+* `order`   = `,`-separated `op.c` (op index, `c` = 1 iff the real evaluation passed concurrent entries), `-` if none;
+* `op`      = `author:ts:tips:act|act|…`, actions `rv,<title>,<doc|x>,<parent|->,<sig>` `ed,<rev>,<title>`
+  `ac,<rev>,<sig>` `rj,<rev>` `rd,<rev>`; the id of an op is its position; the root's embedded document is the
+  document of its `rv` action.
+Output: `init-err` / `init-panic` / `bad-order`, or `r=<o|e|p per applied op>;cur=…;hd=…;rv=…`.
+-/
+namespace HeartwoodModel.Driver.C04
+open HeartwoodModel.Cob HeartwoodModel.Identity HeartwoodModel.Driver.Util HeartwoodModel.Driver.C08
+
+def parseDocs (s : String) : Option (List IdDoc) :=
+  let rec go (xs : List String) (i : Nat) : Option (List IdDoc) :=
+    match xs with
+    | [] => some []
+    | x :: rest => do
+      let ds ← nats? x
+      let tl ← go rest (i + 1)
+      some ({ blob := i, delegates := ds } :: tl)
+  go (splitOn s ';') 0
+
+def parseV (s : String) : Option (List (Nat × Nat × Nat)) :=
+  if s == "-" then some [] else
+  (splitOn s ',').mapM fun t =>
+    match splitOn t '.' with
+    | [k, sg, b] => do some ((← nat? k), (← nat? sg), (← nat? b))
+    | _ => none
+
+def mkV (tbl : List (Nat × Nat × Nat)) : Key → Sig → Blob → Bool :=
+  fun k s b => tbl.contains (k, s, b)
+
+def parseOrder (s : String) : Option (List (Nat × Bool)) :=
+  if s == "-" then some [] else
+  (splitOn s ',').mapM fun t =>
+    match splitOn t '.' with
+    | [i, c] => do some ((← nat? i), (← bool? c))
+    | _ => none
+
+def parseAction (docs : List IdDoc) (s : String) : Option Action :=
+  match splitOn s ',' with
+  | ["rv", t, d, p, sg] => do
+    let doc ← (if d == "x" then some none else do
+      let i ← nat? d
+      let doc ← docs[i]?
+      some (some doc))
+    some (.revision (← nat? t) doc (← optNat? p) (← nat? sg))
+  | ["ed", r, t] => do some (.revisionEdit (← nat? r) (← nat? t))
+  | ["ac", r, sg] => do some (.revisionAccept (← nat? r) (← nat? sg))
+  | ["rj", r] => do some (.revisionReject (← nat? r))
+  | ["rd", r] => do some (.revisionRedact (← nat? r))
+  | _ => none
+
+structure WOp where
+  author : Nat
+  tips : List Nat
+  actions : List Action
+
+def parseOp (docs : List IdDoc) (s : String) : Option WOp :=
+  match splitOn s ':' with
+  | [au, ts, tips, acts] => do
+    let _ ← nat? ts
+    some { author := (← nat? au), tips := (← nats? tips), actions := (← (splitOn acts '|').mapM (parseAction docs)) }
+  | _ => none
+
+def showRState : RState → String
+  | .active => "a" | .accepted => "c" | .rejected => "r" | .stale => "s"
+
+def showVerdict : Key × Verdict → String
+  | (k, .accept sg) => s!"{k}.a{sg}"
+  | (k, .reject) => s!"{k}.r"
+
+def showRev (id : Nat) : Option Revision → String
+  | none => s!"{id}~x"
+  | some r =>
+    s!"{id}~{r.doc.blob}~{r.title}~{showRState r.state}~{r.author}~{showOptNat r.parent}~" ++
+    showList "," ((sortBy (·.1) r.verdicts).map showVerdict)
+
+def showIdentity (s : Identity) : String :=
+  s!"cur={s.current};hd={showList "+" ((sortBy (·.1) s.heads).map fun (k, i) => s!"{k}.{i}")};" ++
+  s!"rv={showList "+" ((sortBy (·.1) s.revisions).map fun (i, r) => showRev i r)}"
+
+def showARes {α : Type} : Except AErr α → String
+  | .ok _ => "o"
+  | .error .panic => "p"
+  | .error _ => "e"
+
+def toOp (i : Nat) (c : Bool) (w : WOp) : Op :=
+  { id := i, author := w.author, concurrent := c, actions := w.actions }
+
+def evalOrder (V : Key → Sig → Blob → Bool) (ops : List WOp) : Identity → List (Nat × Bool) → List String →
+    List Bool → Option (Identity × List String × List Bool)
+  | s, [], rs, fs => some (s, rs.reverse, fs.reverse)
+  | s, (i, c) :: rest, rs, fs =>
+    match ops[i]? with
+    | none => none
+    | some w =>
+      let r := op V s (toOp i c w)
+      evalOrder V ops (step V s (toOp i c w)) rest (showARes r :: rs)
+        ((match r with | .ok _ => true | _ => false) :: fs)
+
+def run (args : List String) : String :=
+  match args with
+  | "id" :: repoDoc :: docs :: _sigs :: vt :: order :: ops =>
+    match nat? repoDoc, parseDocs docs, parseV vt, parseOrder order with
+    | some repoDoc, some docs, some vt, some order =>
+      match ops.mapM (parseOp docs) with
+      | some (root :: rest) =>
+        let all := root :: rest
+        let V := mkV vt
+        let embedded : Option IdDoc := match root.actions with
+          | [.revision _ d _ _] => d
+          | _ => none
+        match fromRoot V (toOp 0 false root) embedded repoDoc with
+        | .error .panic => "init-panic"
+        | .error _ => "init-err"
+        | .ok s0 =>
+          match evalOrder V all s0 order [] [] with
+          | none => "bad-op"
+          | some (s, rs, fs) =>
+            if orderOk (all.map (·.tips)) (order.map (·.1)) fs then s!"r={dash (joinWith "" rs)};{showIdentity s}"
+            else "bad-order"
+      | _ => "bad-op"
+    | _, _, _, _ => "bad-op"
+  | _ => "bad-op"
 
 end HeartwoodModel.Driver.C04
